@@ -56,42 +56,108 @@ Proof.
   - rewrite P. f_equal. unfold q, zleft. rewrite app_length. lia.
 Qed.
 
-(** * An unmatched opening delimiter at top level *)
+(** * An unmatched opening delimiter *)
 
-(** the extra condition for a math delimiter: what follows must also be
-    readable as a formula body (in math mode the items [l2] are parsed in
-    another state: no formula directly in it), and [$] must not pair with a
-    following [$] into the display delimiter *)
-Definition open_side (cx : context) (op : opener) (l2 : list item) (dtr : str) : Prop :=
-  match op with
-  | OBrace => True
-  | OMath k =>
-      ok_items cx (ps_enter_math (walker_state cx) (Some (m_open k))) l2 (hd_error dtr) = true /\
-      (k = MDollar -> hd_not (fun c => N.eqb c 36) (unparse_items l2 ++ dtr))
-  end.
+(** the conditions on an inserted opening delimiter [op] ([{], [$], [\(], [\[],
+    [\begin{x}]) in a body read in state [hs], followed by the items [l2] and
+    then by what starts with the character [fh]:
+    - [open_wf]: a math delimiter opens a formula only outside math mode; the
+      environment [x] has a valid name, is known to the context (or covered by
+      its fallback) and takes no arguments;
+    - the items after it are also well formed in the state of the new
+      construct's body: automatic when that state is the enclosing one ([{], an
+      environment whose body is not in math mode); otherwise — a formula, or an
+      environment with a math body — a hypothesis (no formula directly among
+      the items);
+    - [$] is not directly followed by [$] (that would be the display delimiter) *)
+Definition open_side (cx : context) (hs : pstate) (op : opener) (l2 : list item) (fol : str) : Prop :=
+  open_wf cx hs op /\
+  (open_state cx hs op = hs \/ ok_items cx (open_state cx hs op) l2 (hd_error fol) = true) /\
+  (op = OMath MDollar -> hd_not (fun c => N.eqb c 36) (unparse_items l2 ++ fol)).
 
-Lemma open_inertf op : inertf (hd_error (open_text op)).
-Proof. destruct op as [|k]; [exact inertf_123|]. destruct k; [exact inertf_36 | exact inertf_92 | exact inertf_92]. Qed.
-
+(** at top level: never closed, rejected when the input ends *)
 Theorem fault_opening_doc cx l1 l2 dtr op :
-  ok_doc cx {| d_items := l1 ++ l2; d_trail := dtr |} = true -> open_side cx op l2 dtr ->
+  ok_doc cx {| d_items := l1 ++ l2; d_trail := dtr |} = true -> open_side cx (walker_state cx) op l2 dtr ->
   let s := unparse_items l1 ++ open_text op ++ unparse_items l2 ++ dtr in
   exists e,
     parse_top s false cx (walker_state cx) = PErr e (length s)
     /\ pe_pos e = Some (length (unparse_items l1) + length (open_text op)) /\ pe_what e = 6.
 Proof.
-  intros OKD OS s. unfold ok_doc, ok_doc_in in OKD. cbn [d_items d_trail] in OKD.
+  intros OKD (WF & OS & DL) s. unfold ok_doc, ok_doc_in in OKD. cbn [d_items d_trail] in OKD.
   apply andb_true_iff in OKD. destruct OKD as [OKD W].
   rewrite ok_items_app in OKD. apply andb_true_iff in OKD. destruct OKD as [OK1 OK2].
   assert (OK1' : ok_items cx (walker_state cx) l1 (hd_error ([] ++ open_text op)) = true).
   { eapply ok_items_follow; [apply open_inertf | exact OK1]. }
-  assert (OK2' : ok_items cx (open_state (walker_state cx) op) l2 (hd_error dtr) = true).
-  { destruct op as [|k]; [exact OK2 | exact (proj1 OS)]. }
-  assert (DL : op = OMath MDollar -> hd_not (fun c => N.eqb c 36) (unparse_items l2 ++ dtr)).
-  { intros ->. exact (proj2 OS eq_refl). }
-  destruct (fault_opening cx l1 [] op l2 dtr OK1' eq_refl OK2' W DL) as (e & H & P & Wh).
+  assert (OK2' : ok_items cx (open_state cx (walker_state cx) op) l2 (hd_error dtr) = true).
+  { destruct OS as [E|H]; [rewrite E; exact OK2 | exact H]. }
+  destruct (fault_opening cx l1 [] op l2 dtr OK1' eq_refl WF OK2' W DL) as (e & H & P & Wh).
   cbn zeta in H. cbn [app length] in H, P. rewrite Nat.add_0_r in P.
   exists e. auto.
+Qed.
+
+(** in a nested body: the new construct runs into the closing delimiter of the
+    construct [f] the delimiter was inserted in.  [closer_of f = Some c]: that
+    closing delimiter as a stray token ([}], [\)], [\]]; none for [$ $]) *)
+Definition closer_of (f : frame) : option stray :=
+  match f with
+  | FGrp _ _ _ _ | FMac _ _ _ _ _ _ _ _ => Some SBrace
+  | FMath _ _ MParen _ _ => Some (SMClose MParen)
+  | FMath _ _ MBracket _ _ => Some (SMClose MBracket)
+  | FMath _ _ MDollar _ _ => None
+  end.
+
+Lemma closer_of_text f c : closer_of f = Some c -> closer_text f = stray_text c /\ stray_wf c.
+Proof.
+  destruct f as [b ws tr a|b ws k tr a|b ws name post a1 tr a2 a]; cbn [closer_of closer_text].
+  - intros E. injection E as <-. split; [reflexivity | exact I].
+  - destruct k; intros E; try discriminate; injection E as <-; (split; [reflexivity | cbn; intro; discriminate]).
+  - intros E. injection E as <-. split; [reflexivity | exact I].
+Qed.
+
+Theorem fault_open_nested_doc cx path f l1 l2 dtr op c :
+  let hs := lp_state cx (walker_state cx) (lefts (path ++ [f])) in
+  ok_doc cx (zdoc (path ++ [f]) l1 l2 dtr) = true -> closer_of f = Some c ->
+  open_side cx hs op l2 (frame_tr f ++ stray_text c) ->
+  stray_ok (open_opts (open_state cx hs op) op) c ->
+  let q := length (zleft (path ++ [f]) l1) + length (open_text op) + length (unparse_items l2) + length (frame_tr f) in
+  exists e,
+    parse_top (zleft (path ++ [f]) l1 ++ open_text op ++ zright (path ++ [f]) l2 dtr) false cx (walker_state cx)
+    = PErr e (q + length (stray_text c))
+    /\ pe_pos e = Some q /\ pe_what e = stray_what c.
+Proof.
+  intros hs OKD CO (WF & OS & DL) SO q. destruct (closer_of_text f c CO) as [CT SW].
+  unfold ok_doc, ok_doc_in, zdoc in OKD. cbn [d_items d_trail] in OKD.
+  apply andb_true_iff in OKD. destruct OKD as [OKD _].
+  destruct (ok_plug_last cx path f _ _ _ OKD) as [OKB Wt]. fold hs in OKB. rewrite CT in OKB.
+  destruct (ok_plug cx (path ++ [f]) _ _ _ OKD) as (OKP & DLb & _).
+  rewrite ok_items_app in OKB. apply andb_true_iff in OKB. destruct OKB as [OK1 OK2].
+  assert (OK1' : ok_items cx hs l1 (hd_error ([] ++ open_text op)) = true).
+  { eapply ok_items_follow; [apply open_inertf | exact OK1]. }
+  assert (OK2' : ok_items cx (open_state cx hs op) l2 (hd_error (frame_tr f ++ stray_text c)) = true).
+  { destruct OS as [E|H]; [rewrite E; exact OK2 | exact H]. }
+  assert (ND : last_dollar (path ++ [f]) = true -> not_dollar (hd_error (unparse_items l1 ++ [] ++ open_text op))).
+  { intros LD. exfalso. clear -LD CO. induction path as [|f0 r IH].
+    - cbn [app last_dollar] in LD. destruct f as [| ? ? k ? ?|]; try discriminate. destruct k; discriminate.
+    - cbn [app last_dollar] in LD. destruct (r ++ [f]) eqn:E; [destruct r; discriminate|]. apply IH. exact LD. }
+  set (g := after_text f ++ rp_text path ++ dtr).
+  assert (DL' : op = OMath MDollar -> hd_not (fun c0 => N.eqb c0 36) (unparse_items l2 ++ frame_tr f ++ stray_text c ++ g)).
+  { intros E. specialize (DL E). rewrite !app_assoc. rewrite !app_assoc in DL.
+    set (x := (unparse_items l2 ++ frame_tr f) ++ stray_text c) in *.
+    assert (NE : x <> []).
+    { unfold x. destruct (stray_text_hd c) as (h & r & E1 & _). rewrite E1.
+      destruct (unparse_items l2 ++ frame_tr f); discriminate. }
+    destruct x; [congruence | exact DL]. }
+  destruct (fault_open_nested cx (lefts (path ++ [f])) l1 [] op l2 (frame_tr f) c g (OKP _ ND) OK1' eq_refl WF OK2'
+              Wt SW SO DL') as (e & H & P & Wh).
+  cbn zeta in H. cbn [app length] in H, P.
+  exists e. split; [|split; [|exact Wh]].
+  - assert (TXT : zleft (path ++ [f]) l1 ++ open_text op ++ zright (path ++ [f]) l2 dtr
+                  = lp_text (lefts (path ++ [f])) ++ unparse_items l1 ++ open_text op ++ unparse_items l2
+                    ++ frame_tr f ++ stray_text c ++ g).
+    { unfold zleft, zright, g. rewrite rp_text_app. cbn [rp_text app]. rewrite right_text_split, CT.
+      rewrite <- !app_assoc. reflexivity. }
+    rewrite TXT, H. f_equal. unfold q, zleft. rewrite app_length. lia.
+  - rewrite P. f_equal. unfold q, zleft. rewrite app_length. lia.
 Qed.
 
 (** * A closing brace inserted in a group: it closes the group early; the
@@ -162,12 +228,6 @@ Proof.
       * exact OKR.
 Qed.
 
-Lemma lefts_app a b : lefts (a ++ b) = lefts a ++ lefts b. Proof. apply map_app. Qed.
-Lemma lp_text_app a b : lp_text (a ++ b) = lp_text a ++ lp_text b. Proof. apply flat_map_app. Qed.
-Lemma rp_text_app a b : rp_text (a ++ b) = rp_text b ++ rp_text a.
-Proof. induction a as [|f r IH]; [cbn; rewrite app_nil_r; reflexivity|]. cbn [app rp_text]. rewrite IH, app_assoc. reflexivity. Qed.
-Lemma plug_app a b body : plug (a ++ b) body = plug a (plug b body).
-Proof. induction a as [|f r IH]; [reflexivity|]. cbn [app plug]. rewrite IH. reflexivity. Qed.
 
 Lemma early_hd chain l1 l2 (x : str) : chain <> [] -> forallb is_grp chain = true ->
   hd_error (unparse_items (fst (fst (early chain l1 l2))) ++ x) = hd_error (lp_text (lefts chain)).
